@@ -1505,7 +1505,12 @@ def configs_for(prop, tier, seed):
             items.append((sid, body, cfgs))
     else:
         raise SystemExit("no E2 configuration for " + prop)
-    items = [(sid, body, [c for c in cfgs if small_profile(c[1]) or not is_cross(body)]) for sid, body, cfgs in items]
+    def n_table_atoms(body):
+        return sum(1 for a in gen.parse_body(body) if a.kind != "prim")
+    # cross products only get small profiles; four-atom joins do not get the 400 / 1000-row profiles (a 400-row four-way
+    # self-join has millions of matches: the debug-build engine and the evaluator need minutes per program)
+    items = [(sid, body, [c for c in cfgs if small_profile(c[1]) or not (is_cross(body) or n_table_atoms(body) >= 4)])
+             for sid, body, cfgs in items]
     return items, shapes, profiles, seeds
 
 
